@@ -174,6 +174,7 @@ variables
    hdl = [ii \in Insts |-> <<>>],                               \* previously deferred occurrences [p, t] in the order they were finally handled
    dropped = [ii \in Insts |-> {}],                             \* payloads swallowed by a blocking state or a documented queue reset
    pre = [blocked |-> FALSE, quiet |-> TRUE, act |-> <<>>, all |-> <<>>],
+   movedfrom = -1,
    used = [ii \in Insts |-> ii = 0],                            \* instance slots that hold an object (slot 0 from the beginning)
    lastcall = [op |-> "none", i |-> 0, e |-> "", p |-> 0];
 
@@ -777,7 +778,7 @@ M0: while (TRUE) {
           };
        } or {
           \* copy construction / copy assignment of a quiescent machine: instance j becomes a copy of instance i
-          with (cc \in IF Mode = "trace" THEN (IF HasLine /\ CurLine.k = "call" /\ CurLine.op \in {"copy", "assign"} THEN {[i |-> CurLine.i, j |-> CurLine.j, op |-> CurLine.op]} ELSE {})
+          with (cc \in IF Mode = "trace" THEN (IF HasLine /\ CurLine.k = "call" /\ CurLine.op \in {"copy", "assign", "move", "moveassign"} THEN {[i |-> CurLine.i, j |-> CurLine.j, op |-> CurLine.op]} ELSE {})
                        ELSE {cx \in {[i |-> ii, j |-> jj, op |-> oo] : ii \in {kk \in Insts : running[kk][Def.root]}, jj \in Insts, oo \in {"copy", "assign"} \cap Apis} :
                                    cx.i # cx.j /\ (cx.op = "copy" => ~used[cx.j])}) {
              if (Mode = "trace") { l := l + 1; } else { await ncalls < MaxCalls; path := Append(path, [call |-> cc.op, i |-> cc.i, e |-> "", p |-> cc.j]); };
@@ -791,6 +792,18 @@ M0: while (TRUE) {
              defd[cc.j] := defd[cc.i]; dropped[cc.j] := dropped[cc.i]; defseq[cc.j] := defseq[cc.i]; hdl[cc.j] := hdl[cc.i];
              used[cc.j] := TRUE;
              ret := 0;
+             \* move construction / move assignment: the target takes over the source's state, the moved-from machine is destroyed afterwards
+             \* (back / back11 have no move operations: there the call is a copy and the source object stays behind)
+             if (cc.op \in {"move", "moveassign"} /\ IsM) { movedfrom := cc.i; } else { movedfrom := -1; };
+          };
+MV:       if (movedfrom >= 0) {
+             running[movedfrom] := [mm \in Machines |-> FALSE]; processing[movedfrom] := [mm \in Machines |-> FALSE];
+             mq[movedfrom] := [mm \in Machines |-> <<>>]; dq[movedfrom] := [mm \in Machines |-> <<>>]; pool[movedfrom] := [mm \in Machines |-> <<>>];
+             active[movedfrom] := [mm \in Machines |-> MD(mm).init]; hist[movedfrom] := InitHist;
+             curseq[movedfrom] := [mm \in Machines |-> 0]; seqcnt[movedfrom] := [mm \in Machines |-> 0];
+             ledger[movedfrom] := [kk \in LedgerKeys |-> 0]; encnt[movedfrom] := [kk \in LedgerKeys |-> 0];
+             lastcfg[movedfrom] := [mm \in Machines |-> MD(mm).init]; used[movedfrom] := FALSE;
+             movedfrom := -1;
           };
        };
 M1:    if (Mode = "trace" /\ ~wasreset) {
